@@ -371,6 +371,9 @@ func TestPropNeedleMapperHistory(t *testing.T) {
 			}
 			h.ops = []string{fmt.Sprintf("Asc(%x,n=%d,stride=%d,%d offsets from %d to %d,size=%d)", base, n, stride, len(h.idx), first, h.unit, size)}
 		}
+		// while the in-memory loader's listed finding is open, a memory-kind history either takes redundant
+		// deletes (and then no reload after the first redundant tombstone) or reloads freely without them
+		redundantOK := kind != "memory" || !vlib.Known(keyRedundantTomb) || rapid.Bool().Draw(t, "redundantDeletes")
 		nOps := rapid.IntRange(1, 60).Draw(t, "nOps")
 		for i := 0; i < nOps; i++ {
 			switch rapid.SampledFrom([]string{"put", "put", "put", "put", "delete", "delete", "delete", "redelete", "redelete", "reload", "check", "check"}).Draw(t, "op") {
@@ -391,6 +394,10 @@ func TestPropNeedleMapperHistory(t *testing.T) {
 					h.del(t, k, u)
 				}
 			case "redelete":
+				if !redundantOK {
+					vlib.Excluded(keyRedundantTomb)
+					continue
+				}
 				// an already deleted key if there is one (2 of 3 draws), else / otherwise a key that was never stored
 				var dead []uint64
 				for _, k := range h.ref.keys {
